@@ -863,7 +863,7 @@ def translate_text(text, memprefix='vf_'):
     for n, d in cx.decls.items():
         if n.startswith('llvm.'): continue
         ps = ', '.join(ctype(cx, t) for t, _, _ in d[2]) or 'void'
-        if d[3]: ps += ', ...'
+        if d[3]: ps = (ps + ', ...') if d[2] else ''
         protos.append('%s f_%s(%s); /* extern %s */' % (ctype(cx, d[1]), mang(n), ps, demap[n]))
         nm['externs']['f_' + mang(n)] = demap[n]
     for n in cx.structs:
